@@ -521,6 +521,9 @@ func (e *specEnv) field(base SV, name string) SV {
 			}
 		} else if sl, ok := f.Type.Underlying().(*types.Slice); ok && isByteElem(sl.Elem()) {
 			e.facts = append(e.facts, app("g_isbytes", el.E))
+		} else if _, ok := f.Type.Underlying().(*types.Pointer); ok && e.st != nil && e.st.top != "" && !strings.Contains(el.E, "q_") {
+			// a stored reference points to an object allocated before the state it is read in
+			e.facts = append(e.facts, tAnd(tCmp("<=", "0", el.E), tCmp("<", el.E, e.st.top)))
 		}
 		return SV{V: e.wrapTyped(el, f.Type), T: f.Type}
 	}
